@@ -5,8 +5,10 @@ package main
 import (
 	"fmt"
 	"math/rand"
+	"os"
 	"sort"
 	"strings"
+	"sync/atomic"
 	"time"
 
 	"go.einride.tech/can/pkg/descriptor"
@@ -92,6 +94,20 @@ func (r *runner) waitEvt(t int, d time.Duration) bool {
 	}
 }
 
+// A thread that does not show up where the unchanged code would is waited for with a generous
+// timeout; after a few such timeouts (only a changed implementation produces them) the waits are
+// shortened and main() stops generating further schedules: the logged traces already show it.
+var timeouts int32
+
+func noteTimeout() { atomic.AddInt32(&timeouts, 1) }
+func curTimeout() time.Duration {
+	if atomic.LoadInt32(&timeouts) >= 2 {
+		return 300 * time.Millisecond
+	}
+	return settleTimeout
+}
+func tooAbnormal() bool { return atomic.LoadInt32(&timeouts) >= 12 }
+
 func (r *runner) isTx(t int) bool { _, ok := r.w.msgs[t]; return ok }
 
 func (r *runner) setParked(t int, v bool) {
@@ -115,7 +131,13 @@ func (r *runner) settle(t int, kind string) {
 			return
 		}
 	}
-	if !r.waitEvt(t, settleTimeout) {
+	if !r.waitEvt(t, curTimeout()) {
+		noteTimeout()
+		if os.Getenv("VERIF_RUNNER_DEBUG") != "" {
+			r.w.mu.Lock()
+			fmt.Fprintf(os.Stderr, "settle timeout: thread %x after %s; log: %s\n", t, kind, strings.Join(r.w.log, " "))
+			r.w.mu.Unlock()
+		}
 		if r.isTx(t) {
 			r.setParked(t, true) // assume it sits in select (possibly mutated code)
 		} else {
@@ -154,7 +176,8 @@ func (r *runner) deliver(t int, ch chan struct{}) bool {
 		return true
 	case <-r.w.evt[t]: // the loop took a tick (or returned) instead
 		return false
-	case <-time.After(settleTimeout):
+	case <-time.After(curTimeout()):
+		noteTimeout()
 		return false
 	}
 }
@@ -219,7 +242,7 @@ func (r *runner) doCancel() {
 	r.w.cancel()
 	for _, x := range r.sc.txs {
 		if r.parked(x.tid) {
-			r.waitEvt(x.tid, settleTimeout)
+			r.waitEvt(x.tid, curTimeout())
 		}
 	}
 }
@@ -240,7 +263,7 @@ func (r *runner) exec(a action) {
 			m.token = false
 			w.emit(fmt.Sprintf("WK.%x", a.tid))
 			r.setParked(a.tid, false)
-			r.waitEvt(a.tid, settleTimeout)
+			r.waitEvt(a.tid, curTimeout())
 		}
 	case "accept":
 		m := w.msgs[a.tid]
@@ -248,7 +271,7 @@ func (r *runner) exec(a action) {
 			w.emit(fmt.Sprintf("AC.%x.%x", a.tid, a.a.tid))
 			a.a.offering = 0
 			r.setParked(a.tid, false)
-			r.waitEvt(a.tid, settleTimeout)
+			r.waitEvt(a.tid, curTimeout())
 		}
 	case "app":
 		ap := a.a
@@ -345,7 +368,7 @@ func runSchedule(sc scenario, choose func(n int) int) string {
 		w.startTransmitter(x.tid, n, w.msgs[x.tid])
 	}
 	for _, t := range r.threads {
-		r.waitEvt(t, settleTimeout)
+		r.waitEvt(t, curTimeout())
 	}
 	idle := 0
 	for step := 0; ; step++ {
@@ -386,7 +409,7 @@ func runSchedule(sc scenario, choose func(n int) int) string {
 			}
 			for _, t := range r.threads {
 				if !r.isDone(t) {
-					r.waitEvt(t, settleTimeout)
+					r.waitEvt(t, curTimeout())
 				}
 			}
 			continue
@@ -404,6 +427,8 @@ func runSchedule(sc scenario, choose func(n int) int) string {
 	w.mu.Unlock()
 	if r.marker != "" {
 		line += " " + r.marker
+		noteTimeout()
+		noteTimeout()
 	}
 	return line
 }
@@ -527,7 +552,7 @@ func randomScenario(rng *rand.Rand, k int) scenario {
 func explore(sc scenario, salt, off, depth, cap int, emit func(string)) int {
 	prefix := make([]int, depth)
 	count := 0
-	for count < cap {
+	for count < cap && !tooAbnormal() {
 		widths := make([]int, depth)
 		dec := 0
 		line := runSchedule(sc, func(n int) int {
